@@ -8,6 +8,7 @@ import QV.Drive.C05
 import QV.Drive.C18
 import QV.Drive.C16
 import QV.Drive.C17
+import QV.Drive.C13
 /-! `qvdriver`: one JSON request per input line, one JSON reply per output line. -/
 open Lean
 
@@ -22,7 +23,8 @@ def dispatch (j : Json) : Except String Json := do
     QV.Drive.C05.handle,
     QV.Drive.C18.handle,
     QV.Drive.C16.handle,
-    QV.Drive.C17.handle
+    QV.Drive.C17.handle,
+    QV.Drive.C13.handle
   ]
   for h in handlers do
     if let some r := h op j then return ← r
